@@ -115,7 +115,7 @@ class C07:
         return st.one_of(_strategy("j1939-21"), _strategy("j1939-22"))
 
     def examples(self, tier):
-        return 3000 if tier == "quick" else 200000
+        return 3000 if tier == "quick" else 300000
 
     def extra_engine(self, tier, seed, out):
         """Second engine: coverage-guided fuzzing (atheris / libFuzzer) of the same property function through
